@@ -1182,6 +1182,39 @@ Fixpoint veq (a b : gval) {struct a} : bool :=
   | VEdge x y z => match b with VEdge x' y' z' => veq x x' && veq y y' && veq z z' | _ => false end
   end.
 
+(* [same_shape a b]: the same nil / non-nil choices everywhere (what [veq] does not look at) *)
+Definition skind_eqb (a b : skind) : bool :=
+  match a, b with SNil, SNil | SSlice, SSlice | SArr, SArr => true | _, _ => false end.
+Fixpoint same_shape (a b : gval) {struct a} : bool :=
+  match a, b with
+  | VNum s1 _ _, VNum s2 _ _ | VBools s1 _, VBools s2 _ => skind_eqb s1 s2
+  | VNilSlice, VNilSlice | VNilMap, VNilMap => true
+  | VNilSlice, _ | _, VNilSlice | VNilMap, _ | _, VNilMap => false
+  | VSlice _ l, VSlice _ l' | VArray l, VArray l' =>
+      (fix go (l l' : list gval) : bool :=
+         match l, l' with
+         | x :: r, y :: r' => same_shape x y && go r r'
+         | _, _ => true
+         end) l l'
+  | VMap _ kvs, VMap _ kvs' =>
+      (* values of the entries with equal keys *)
+      (fix go (l : list (gval * gval)) : bool :=
+         match l with
+         | [] => true
+         | kv :: r => forallb (fun kv' => negb (veq (fst kv) (fst kv')) || same_shape (snd kv) (snd kv')) kvs' && go r
+         end) kvs
+  | VPtr _ p, (VPtr _ q | VOPtr q) | VOPtr p, (VPtr _ q | VOPtr q) | VIface p, VIface q => same_shape p q
+  | VStruct _ fs, VStruct _ fs' =>
+      (fix go (l l' : list (finfo * gval)) : bool :=
+         match l, l' with
+         | x :: r, y :: r' => same_shape (snd x) (snd y) && go r r'
+         | _, _ => true
+         end) fs fs'
+  | VNode x ch, VNode y ch' => same_shape x y && same_shape ch ch'
+  | VEdge x y z, VEdge x' y' z' => same_shape x x' && same_shape y y' && same_shape z z'
+  | _, _ => true
+  end.
+
 (* ------------------------------------------------------------------------- *)
 (* The pipeline behind ce.UnmarshalFromCBEDocument: the validator stands between the decoder
    and the builder                                                             *)
@@ -1240,7 +1273,7 @@ Definition marshalrt_case_ok (c : marshalrt_case) : bool :=
        end
    end) &&
   match obs, build_with lt cfg t evs with
-  | ObsOk v, TOk m => veq m v && veq v m
+  | ObsOk v, TOk m => veq m v && veq v m && same_shape m v
   | ObsPanic i, TErr j => i =? j
   | ObsStopped, TOk _ => true
   | _, _ => false
